@@ -86,6 +86,9 @@ def binop (op : BinOp) (a b : SVal) : SVal :=
     | .incomm => .tern .U
     | _ => .tern .F
 
+/-- Processor.Case with a value: `value.Equal(val, cond)` must be TRUE -/
+def caseHit (v w : SVal) : Tern := (binop .eq v w).ternary
+
 /-- evalArithmetic / evalComparison return early when the LEFT operand is NULL -/
 def nullLeft (op : BinOp) : SVal :=
   match op with
@@ -99,6 +102,10 @@ inductive Expr
   | var (x : Nat)
   | bin (op : BinOp) (a b : Expr)
   | call (f : Nat) (args : List Expr)
+  | acall (f : Nat) (s0 : Int) (args : List Expr)
+      -- a user-defined AGGREGATE evaluated inside a query over a group: `(SELECT f(<list>, args…) FROM … )`; `s0` is the
+      -- state of the pseudo cursor at its start and so stands for the grouped values (see `curStep`: the values
+      -- s0, s0+1, … , as many as s0 encodes — possibly none)
   deriving Repr, Inhabited
 
 structure Param where
@@ -116,6 +123,9 @@ inductive Stmt
   | dispose (x : Nat)                                           -- DISPOSE @x
   | print (e : Expr)                                            -- PRINT e
   | ifs (branches : List (Expr × List Stmt)) (els : List Stmt)  -- IF … ELSEIF … ELSE (els = [] : no ELSE)
+  | caseOf (e : Expr) (branches : List (Expr × List Stmt)) (els : List Stmt)
+      -- CASE e WHEN c THEN … [ELSE …] END CASE: e once, then the first branch whose c equals it
+  | raise (forced : Bool)                                       -- EXIT <code > 0> (forced) / TRIGGER ERROR: the procedure ends with an error
   | while (c : Expr) (body : List Stmt)                         -- WHILE c DO … END WHILE
   | foreach (x : Nat) (decl : Bool) (vals : List SVal) (body : List Stmt)
       -- WHILE [VAR] @x IN cur DO … END WHILE over a cursor that is open in front of its first row and whose
@@ -136,6 +146,7 @@ inductive Stmt
   | exit
   | ret (e : Expr)                                              -- RETURN e
   | declFn (f : Nat) (params : List Param) (body : List Stmt)   -- DECLARE f FUNCTION (…) AS BEGIN … END
+  | declAgg (f c : Nat) (params : List Param) (body : List Stmt) -- DECLARE f AGGREGATE (c, …) AS BEGIN … END
   | disposeFn (f : Nat)                                         -- DISPOSE FUNCTION f
   deriving Repr, Inhabited
 
@@ -143,10 +154,11 @@ inductive Stmt
 structure FDecl where
   params : List Param
   body : List Stmt
+  agg : Option Nat        -- IsAggregate: the name of the pseudo cursor (a cursor variable) of a user-defined aggregate
   deriving Repr, Inhabited
 
 inductive Err
-  | undeclaredVar | redeclaredVar | undeclaredFn | redeclaredFn | argCount | dupParam | redeclaredTable | cursorClosed | cursorOpen | fuel
+  | undeclaredVar | redeclaredVar | undeclaredFn | redeclaredFn | argCount | dupParam | redeclaredTable | cursorClosed | cursorOpen | pseudoCursor | forcedExit | userTriggered | fuel
   deriving DecidableEq, Repr, Inhabited
 
 /-! ## blocks (BlockScope: Variables and Functions maps) -/
@@ -234,19 +246,27 @@ def declareFn (f : Nat) (d : FDecl) : List Block → Except Err (List Block)
     | none => if dupParams d.params then .error .dupParam
               else .ok ({ b with funs := (f, d) :: b.funs } :: rest)
 
-/-- Cursor.Open / Close / Fetch(NEXT) on the state of a cursor over three rows with the values off, off+1, off+2
-    (off a multiple of 10): closed = -off-1; open = off + (number of rows passed, 4 once the end was hit).
+/-- Cursor.Open / Close / Fetch(NEXT) on the state of a cursor.  The state is one integer:
+      open:    1000·p + 100·j + 10·n + k    n ≤ 8 rows with the values base, base+1, … (base = the state at k = 0),
+                                            k = number of rows passed (n+1 once the end was hit), p = 1 for the
+                                            pseudo cursor of an aggregate (cannot be opened or closed)
+      closed:  −(100·j + 10·n) − 1
     Result: the new state and, for a successful FETCH, the value fetched. -/
 def curStep : CurOp → SVal → Except Err (SVal × Option SVal)
-  | .open, .int s => if s < 0 then .ok (.int (-s - 1), none) else .error .cursorOpen
-  | .close, .int s => if s < 0 then .ok (.int s, none) else .ok (.int (-(s - s % 10) - 1), none)
+  | .open, .int s =>
+    if s < 0 then .ok (.int (-s - 1), none) else if 1000 ≤ s then .error .pseudoCursor else .error .cursorOpen
+  | .close, .int s =>
+    if s < 0 then .ok (.int s, none) else if 1000 ≤ s then .error .pseudoCursor else .ok (.int (-(s - s % 10) - 1), none)
   | .fetch, .int s =>
     if s < 0 then .error .cursorClosed
-    else if s % 10 < 3 then .ok (.int (s + 1), some (.int s))
-    else .ok (.int (s - s % 10 + 4), none)
+    else if s % 10 < (s / 10) % 10 then .ok (.int (s + 1), some (.int s))
+    else .ok (.int (s - s % 10 + (s / 10) % 10 + 1), none)
   | .open, _ => .error .cursorOpen
   | .close, v => .ok (v, none)
   | .fetch, _ => .error .cursorClosed
+
+/-- the pseudo cursor of an aggregate invoked with nothing to aggregate (empty group, or outside any query) -/
+def emptyPseudo : Int := 1000
 
 /-- ReferenceScope.OpenCursor / CloseCursor / FetchCursor + SubstituteVariableDirectly: the first block (from the
     innermost outward) that declares `c` is the cursor; the fetched value goes to the visible `x` -/
@@ -344,11 +364,38 @@ def evalI : Nat → Expr → St → ERes
     match getFn f st.blocks with
     | none => (.error .undeclaredFn, st)
     | some d =>
-      if checkArgsLen d args.length then
-        match evalArgsI fuel args st with
-        | (.error e, st1) => (.error e, st1)
-        | (.ok vs, st1) => callI fuel d vs st1
-      else (.error .argCount, st)
+      match d.agg with
+      | none =>
+        if checkArgsLen d args.length then
+          match evalArgsI fuel args st with
+          | (.error e, st1) => (.error e, st1)
+          | (.ok vs, st1) => callI fuel d vs st1
+        else (.error .argCount, st)
+      | some c =>
+        -- udfn.IsAggregate: evalAggregateFunction outside a query — the first argument (the list) is not
+        -- evaluated, there is nothing to aggregate
+        match args with
+        | [] => (.error .argCount, st)
+        | _ :: rest =>
+          if checkArgsLen d rest.length then
+            match evalArgsI fuel rest st with
+            | (.error e, st1) => (.error e, st1)
+            | (.ok vs, st1) => callAggI fuel d c emptyPseudo vs st1
+          else (.error .argCount, st)
+  | fuel + 1, .acall f s0 args, st =>      -- evalAggregateFunction on a grouped record of a query
+    match getFn f st.blocks with
+    | none =>
+      -- the query does not know f as an aggregate: f is evaluated per row — not at all when there is no row
+      if (s0 / 10) % 10 = 0 then (.ok .null, st) else (.error .undeclaredFn, st)
+    | some d =>
+      match d.agg with
+      | none => (.error .undeclaredFn, st)   -- a scalar function under this name: outside the generated programs
+      | some c =>
+        if checkArgsLen d args.length then
+          match evalArgsI fuel args st with
+          | (.error e, st1) => (.error e, st1)
+          | (.ok vs, st1) => callAggI fuel d c s0 vs st1
+        else (.error .argCount, st)
 
 /-- the argument loop of evalFunction -/
 def evalArgsI : Nat → List Expr → St → Except Err (List SVal) × St
@@ -379,6 +426,30 @@ def callI : Nat → FDecl → List SVal → St → ERes
             | some v => (.ok v, p.st)
             | none => (.ok .null, p.st)
       else (.error .argCount, child)
+    (r.1, r.2.pop)
+
+/-- UserDefinedFunction.ExecuteAggregate: child scope, `AddPseudoCursor(fn.Cursor, values)` into its block — for
+    EVERY value list, also the empty one —, then execute -/
+def callAggI : Nat → FDecl → Nat → Int → List SVal → St → ERes
+  | 0, _, _, _, _, st => (.error .fuel, st)
+  | fuel + 1, d, c, s0, args, st =>
+    let child := st.push
+    let r : ERes :=
+      match declareVar c (.int s0) child.blocks with
+      | none => (.error .redeclaredVar, child)
+      | some bs0 =>
+        let child1 : St := { child with blocks := bs0 }
+        if checkArgsLen d args.length then
+          match bindParamsI fuel d.params args child1 with
+          | (some e, st1) => (.error e, st1)
+          | (none, st1) =>
+            let p := executeI fuel d.body none st1
+            match p.err with
+            | some e => (.error e, p.st)
+            | none => match p.rv with
+              | some v => (.ok v, p.st)
+              | none => (.ok .null, p.st)
+        else (.error .argCount, child1)
     (r.1, r.2.pop)
 
 /-- the parameter loop of UserDefinedFunction.execute: arguments first, then defaults evaluated in the child scope -/
@@ -426,6 +497,12 @@ def stmtI : Nat → Stmt → Option SVal → St → PRes
     | (.error err, st1) => .fail err rv st1
     | (.ok v, st1) => .ok rv { st1 with out := v :: st1.out }
   | fuel + 1, .ifs branches els, rv, st => ifI fuel branches els rv st
+  | fuel + 1, .caseOf e branches els, rv, st =>           -- Processor.Case: `val, err = Evaluate(ctx, proc.ReferenceScope, stmt.Value)`
+    match evalI fuel e st with
+    | (.error err, st1) => .fail err rv st1
+    | (.ok v, st1) => caseI fuel v branches els rv st1
+  | _ + 1, .raise forced, rv, st =>                        -- flow = TerminateWithError; err = NewForcedExit(code) / NewUserTriggeredError
+    .fail (if forced then .forcedExit else .userTriggered) rv st
   | fuel + 1, .while c body, rv, st =>
     -- childProc := proc.NewChildProcessor(); defer childProc.Close()
     let r := whileI fuel c body rv none st.push
@@ -454,7 +531,11 @@ def stmtI : Nat → Stmt → Option SVal → St → PRes
     | (.error err, st1) => .fail err rv st1
     | (.ok v, st1) => ⟨.ret, none, some v, st1⟩
   | _ + 1, .declFn f params body, rv, st =>
-    match declareFn f ⟨params, body⟩ st.blocks with
+    match declareFn f ⟨params, body, none⟩ st.blocks with
+    | .error err => .fail err rv st
+    | .ok bs => .ok rv { st with blocks := bs }
+  | _ + 1, .declAgg f c params body, rv, st =>
+    match declareFn f ⟨params, body, some c⟩ st.blocks with
     | .error err => .fail err rv st
     | .ok bs => .ok rv { st with blocks := bs }
   | _ + 1, .disposeFn f, rv, st =>
@@ -494,6 +575,25 @@ def ifI : Nat → List (Expr × List Stmt) → List Stmt → Option SVal → St 
         let r := executeI fuel body none st1.push
         { r with rv := (match r.rv with | some v => some v | none => rv), st := r.st.pop }
       | _ => ifI fuel more els rv st1
+
+/-- the loop of Processor.Case over the WHEN branches, `v` the value of the CASE expression -/
+def caseI : Nat → SVal → List (Expr × List Stmt) → List Stmt → Option SVal → St → PRes
+  | 0, _, _, _, rv, st => .fail .fuel rv st
+  | fuel + 1, _, [], els, rv, st =>
+    match els with
+    | [] => .ok rv st
+    | els =>
+      let r := executeI fuel els none st.push
+      { r with rv := (match r.rv with | some v => some v | none => rv), st := r.st.pop }
+  | fuel + 1, v, (c, body) :: more, els, rv, st =>
+    match evalI fuel c st with
+    | (.error err, st1) => .fail err rv st1
+    | (.ok w, st1) =>
+      match caseHit v w with
+      | .T =>
+        let r := executeI fuel body none st1.push
+        { r with rv := (match r.rv with | some v => some v | none => rv), st := r.st.pop }
+      | _ => caseI fuel v more els rv st1
 
 /-- the `for` loop of Processor.While; the state's first block is the child processor's block,
     `rv` the parent's returnVal, `crv` the child processor's -/
@@ -583,11 +683,38 @@ def evalS : Nat → Expr → St → ERes
     match getFn f st.blocks with
     | none => (.error .undeclaredFn, st)
     | some d =>
-      if checkArgsLen d args.length then
-        match evalArgsS fuel args st with
-        | (.error e, st1) => (.error e, st1)
-        | (.ok vs, st1) => callS fuel d vs st1
-      else (.error .argCount, st)
+      match d.agg with
+      | none =>
+        if checkArgsLen d args.length then
+          match evalArgsS fuel args st with
+          | (.error e, st1) => (.error e, st1)
+          | (.ok vs, st1) => callS fuel d vs st1
+        else (.error .argCount, st)
+      | some c =>
+        -- udfn.IsAggregate: evalAggregateFunction outside a query — the first argument (the list) is not
+        -- evaluated, there is nothing to aggregate
+        match args with
+        | [] => (.error .argCount, st)
+        | _ :: rest =>
+          if checkArgsLen d rest.length then
+            match evalArgsS fuel rest st with
+            | (.error e, st1) => (.error e, st1)
+            | (.ok vs, st1) => callAggS fuel d c emptyPseudo vs st1
+          else (.error .argCount, st)
+  | fuel + 1, .acall f s0 args, st =>
+    match getFn f st.blocks with
+    | none =>
+      -- the query does not know f as an aggregate: f is evaluated per row — not at all when there is no row
+      if (s0 / 10) % 10 = 0 then (.ok .null, st) else (.error .undeclaredFn, st)
+    | some d =>
+      match d.agg with
+      | none => (.error .undeclaredFn, st)   -- a scalar function under this name: outside the generated programs
+      | some c =>
+        if checkArgsLen d args.length then
+          match evalArgsS fuel args st with
+          | (.error e, st1) => (.error e, st1)
+          | (.ok vs, st1) => callAggS fuel d c s0 vs st1
+        else (.error .argCount, st)
 
 def evalArgsS : Nat → List Expr → St → Except Err (List SVal) × St
   | 0, _, st => (.error .fuel, st)
@@ -606,6 +733,21 @@ def callS : Nat → FDecl → List SVal → St → ERes
   | 0, _, _, st => (.error .fuel, st)
   | fuel + 1, d, args, st =>
     inBlock (fun s =>
+      if checkArgsLen d args.length then
+        match bindParamsS fuel d.params args s with
+        | (some e, s1) => (.error e, s1)
+        | (none, s1) =>
+          match blockS fuel d.body s1 with
+          | (.ret v, s2) => (.ok v, s2)
+          | (.err e, s2) => (.error e, s2)
+          | (_, s2) => (.ok .null, s2)
+      else (.error .argCount, s)) st
+
+/-- an aggregate call: as a call, in a block that starts with the invocation's OWN cursor over the grouped values -/
+def callAggS : Nat → FDecl → Nat → Int → List SVal → St → ERes
+  | 0, _, _, _, _, st => (.error .fuel, st)
+  | fuel + 1, d, c, s0, args, st =>
+    inBlockWith ⟨[(c, .int s0)], []⟩ (fun s =>
       if checkArgsLen d args.length then
         match bindParamsS fuel d.params args s with
         | (some e, s1) => (.error e, s1)
@@ -659,6 +801,11 @@ def stmtS : Nat → Stmt → St → Outcome × St
     | (.error err, st1) => (.err err, st1)
     | (.ok v, st1) => (.normal, { st1 with out := v :: st1.out })
   | fuel + 1, .ifs branches els, st => ifS fuel branches els st
+  | fuel + 1, .caseOf e branches els, st =>
+    match evalS fuel e st with
+    | (.error err, st1) => (.err err, st1)
+    | (.ok v, st1) => caseS fuel v branches els st1
+  | _ + 1, .raise forced, st => (.err (if forced then .forcedExit else .userTriggered), st)
   | fuel + 1, .while c body, st => whileS fuel c body st
   | fuel + 1, .foreach x decl vals body, st => foreachS fuel x decl vals body st
   | _ + 1, .declT x, st =>
@@ -681,7 +828,11 @@ def stmtS : Nat → Stmt → St → Outcome × St
     | (.error err, st1) => (.err err, st1)
     | (.ok v, st1) => (.ret v, st1)
   | _ + 1, .declFn f params body, st =>
-    match declareFn f ⟨params, body⟩ st.blocks with
+    match declareFn f ⟨params, body, none⟩ st.blocks with
+    | .error err => (.err err, st)
+    | .ok bs => (.normal, { st with blocks := bs })
+  | _ + 1, .declAgg f c params body, st =>
+    match declareFn f ⟨params, body, some c⟩ st.blocks with
     | .error err => (.err err, st)
     | .ok bs => (.normal, { st with blocks := bs })
   | _ + 1, .disposeFn f, st =>
@@ -711,6 +862,20 @@ def ifS : Nat → List (Expr × List Stmt) → List Stmt → St → Outcome × S
       match v.ternary with
       | .T => inBlock (blockS fuel body) st1
       | _ => ifS fuel more els st1
+
+def caseS : Nat → SVal → List (Expr × List Stmt) → List Stmt → St → Outcome × St
+  | 0, _, _, _, st => (.err .fuel, st)
+  | fuel + 1, _, [], els, st =>
+    match els with
+    | [] => (.normal, st)
+    | els => inBlock (blockS fuel els) st
+  | fuel + 1, v, (c, body) :: more, els, st =>
+    match evalS fuel c st with
+    | (.error err, st1) => (.err err, st1)
+    | (.ok w, st1) =>
+      match caseHit v w with
+      | .T => inBlock (blockS fuel body) st1
+      | _ => caseS fuel v more els st1
 
 def whileS : Nat → Expr → List Stmt → St → Outcome × St
   | 0, _, _, st => (.err .fuel, st)
